@@ -26,6 +26,8 @@ const (
 	GroupsFamily = 1 // none, each single group, all five (7 subsets)
 	GroupsAll    = 2 // all 32 subsets
 	GroupsNoneOrAll = 3 // none or all five
+	GroupsContDeferred = 4 // continuous checks, with or without deferred checks
+	GroupsDeferred = 5 // deferred checks only
 )
 
 type Cfg struct {
@@ -67,6 +69,10 @@ func mask(name string, family int) int {
 		return api.Choose(name, 32)
 	case GroupsNoneOrAll:
 		return 31 * api.Choose(name, 2)
+	case GroupsDeferred:
+		return 1 << GDeferred
+	case GroupsContDeferred:
+		return 1<<GCont | api.Choose(name, 2)<<GDeferred
 	}
 	return 0
 }
